@@ -1,7 +1,9 @@
 (* Props/C07.v -- property C07 (correspondence half + trace invariants): the run recorded by the
    Equal Shares model (Model/MesRule.v: o_b0, o_trace, o_final -- what analytics=True records) is an
    exact price system.  Only statements closed by [exact]; proofs in Proofs/MesTrace.v. *)
-From PB Require Import Model.MesRule Proofs.MesSweep Proofs.MesWf Proofs.MesBinary Proofs.MesTrace.
+From PB Require Import Model.MesRule Proofs.MesSweep Proofs.MesWf Proofs.MesBinary Proofs.MesTrace
+  Proofs.MesRun Proofs.MesFeasible Proofs.MesFinal Proofs.MesPrice Proofs.MesPriceExp.
+From PB Require Spec.PriceSystem Model.Priceability.
 Open Scope Q_scope.
 
 (* Every run of the inner algorithm from equal non-negative endowments b0 (plain rule: b0 = budget/n)
@@ -61,17 +63,88 @@ Theorem C07_trace_conservation : forall P costs r, round_ok P costs r ->
 Proof. exact round_conservation. Qed.
 Print Assumptions C07_trace_conservation.
 
-(* UNPROVED (M, DESIGN.md §4 C07)
-   Theorem trace_final_unaffordable : forall x b0 o, wf_voters (mi_voters x) -> 0 <= b0 ->
-     run_once_res x b0 = Some o ->
-     forall mp, In mp (fst (built x)) -> ~ In (mp_id mp) (o_alloc o) ->
-       avail (mi_voters x) (o_final o) mp < mp_cost mp.
-   (needs: the last scan removes every remaining project (sweep never returns None on an affordable
-   project: Proofs/MesWf.v eval_rho_spec) and projects removed in earlier rounds stay unaffordable
-   because budgets only decrease: C07_trace_nobody_overpays.)
-   Theorem mes_price_system : the payments read off the trace satisfy the declarative price-system
-     conditions of C12 without exhaustiveness (depends on Spec/PriceSystem.v of C12).
-   Until then both are checked per run by Oracle/C07.v on the implementation's record (codes 7, 9). *)
+(* M trace_final_unaffordable: when the run stops, the supporters of every supported positive-cost
+   candidate outside the allocation hold less than its cost (multiplicity-weighted), and the pool
+   of the model is empty *)
+Theorem C07_trace_final_unaffordable : forall x b0 o,
+  wf_voters (mi_voters x) -> 0 <= b0 -> run_once_res x b0 = Some o ->
+  (forall mp, In mp (fst (built x)) -> ~ In (mp_id mp) (o_alloc o) ->
+     avail (mi_voters x) (o_final o) mp < mp_cost mp) /\
+  o_left o = [].
+Proof. exact trace_final_unaffordable. Qed.
+Print Assumptions C07_trace_final_unaffordable.
+
+(* M mes_price_system.  Setting: multiplicities 1 (a Profile; [all_ones]), empty initial allocation,
+   an enumeration order listing every project once; "voter i approves c" := "i has positive utility
+   for c" ([approvals x], Proofs/MesPrice.v); any utilities, costs >= 0, tie-breaking, binary_sat.
+   The payments read off the trace -- [out_table x o]: entry (i, c) = the money voter i lost in the
+   round that bought c -- with voter budget = the common endowment are a price system for the
+   returned allocation in the sense of Spec/PriceSystem.v (C0a, P0, C1, C2, C3, C4 and C5 for EVERY
+   project outside the allocation), without exhaustiveness. *)
+Theorem C07_mes_price_system : forall x o,
+  wf_inst (mi_inst x) /\ all_ones (mi_voters x) /\ mi_init x = [] /\
+  NoDup (mi_enum x) /\ (forall p, In p (mi_enum x) <-> (p < length (mi_costs x))%nat) ->
+  (1 <= nvoters (mi_voters x))%nat -> mes_resolute x = Some o ->
+  PriceSystem.price_system (mi_inst x) (approvals x) (o_alloc o) (share x)
+    (Priceability.pay_of (out_table x o)) false false.
+Proof. exact mes_price_system. Qed.
+Print Assumptions C07_mes_price_system.
+
+(* the same for every run of the inner algorithm from a common endowment b0 >= 0 whose outcome
+   respects the budget limit, and for the run reported by the iterated variant *)
+Theorem C07_mes_price_system_run : forall x b0 o,
+  price_hyps x -> 0 <= b0 -> run_once_res x b0 = Some o ->
+  tcost (mi_inst x) (o_alloc o) <= mi_budget x ->
+  PriceSystem.price_system (mi_inst x) (approvals x) (o_alloc o) b0
+    (Priceability.pay_of (out_table x o)) false false.
+Proof. exact mes_price_system_run. Qed.
+Print Assumptions C07_mes_price_system_run.
+
+Theorem C07_mes_iter_price_system : forall fuel x inc o,
+  price_hyps x -> (1 <= nvoters (mi_voters x))%nat -> 0 <= inc -> mes_iter_resolute fuel x inc = Some o ->
+  PriceSystem.price_system (mi_inst x) (approvals x) (o_alloc o) (o_b0 o)
+    (Priceability.pay_of (out_table x o)) false false.
+Proof. exact mes_iter_price_system. Qed.
+Print Assumptions C07_mes_iter_price_system.
+
+(* ... hence (C12_validate_complete, C12_witness_checker_complete) the mirror of the library's
+   validate_price_system and the exact witness checker accept them *)
+Theorem C07_mes_validate_ps : forall x o,
+  price_hyps x -> (1 <= nvoters (mi_voters x))%nat -> mes_resolute x = Some o ->
+  Priceability.validate_ps (mi_inst x) (approvals x) (o_alloc o) (share x) (out_table x o) false false = true /\
+  Priceability.check_witness (mi_inst x) (approvals x) (o_alloc o) (share x) (out_table x o) false false = true.
+Proof. exact mes_validate_ps. Qed.
+Print Assumptions C07_mes_validate_ps.
+
+Theorem C07_mes_iter_validate_ps : forall fuel x inc o,
+  price_hyps x -> (1 <= nvoters (mi_voters x))%nat -> 0 <= inc -> mes_iter_resolute fuel x inc = Some o ->
+  Priceability.validate_ps (mi_inst x) (approvals x) (o_alloc o) (o_b0 o) (out_table x o) false false = true.
+Proof. exact mes_iter_validate_ps. Qed.
+Print Assumptions C07_mes_iter_validate_ps.
+
+(* M mes_price_system with multiplicities (a MultiProfile): on the EXPANDED profile ([expand]: vmul
+   copies of every class, each with multiplicity 1; [appr_of] = approval sets "positive utility"),
+   every copy of class i paying what class i pays per copy ([exp_table]), the trace is a price system
+   for the returned allocation; [price_hyps_m] = price_hyps with "every multiplicity >= 1" instead of
+   "= 1" *)
+Theorem C07_mes_price_system_expanded : forall x b0 o,
+  wf_inst (mi_inst x) /\ wf_voters (mi_voters x) /\ mi_init x = [] /\
+  NoDup (mi_enum x) /\ (forall p, In p (mi_enum x) <-> (p < length (mi_costs x))%nat) ->
+  0 <= b0 -> run_once_res x b0 = Some o ->
+  tcost (mi_inst x) (o_alloc o) <= mi_budget x ->
+  PriceSystem.price_system (mi_inst x) (appr_of (length (mi_costs x)) (expand (mi_voters x))) (o_alloc o) b0
+    (Priceability.pay_of (exp_table x o)) false false.
+Proof. exact mes_price_system_expanded. Qed.
+Print Assumptions C07_mes_price_system_expanded.
+
+Theorem C07_mes_price_system_multi : forall x o,
+  price_hyps_m x -> (1 <= nvoters (mi_voters x))%nat -> mes_resolute x = Some o ->
+  PriceSystem.price_system (mi_inst x) (appr_of (length (mi_costs x)) (expand (mi_voters x))) (o_alloc o) (share x)
+    (Priceability.pay_of (exp_table x o)) false false /\
+  Priceability.validate_ps (mi_inst x) (appr_of (length (mi_costs x)) (expand (mi_voters x))) (o_alloc o) (share x)
+    (exp_table x o) false false = true.
+Proof. exact mes_price_system_multi. Qed.
+Print Assumptions C07_mes_price_system_multi.
 
 (* non-vacuity: a recorded run with two rounds, the second with a poor and a rich supporter *)
 Example C07_nonvacuous :
@@ -80,6 +153,31 @@ Example C07_nonvacuous :
   match mes_resolute x with
   | Some o => o_b0 o = 3 # 2 /\ map r_sel (o_trace o) = [0; 2]%nat /\ map r_rho (o_trace o) = [2 # 3; 4 # 3]
               /\ o_final o = [5 # 6; 0; 1 # 6]
+  | None => False
+  end.
+Proof. vm_compute. repeat split; reflexivity. Qed.
+
+
+(* non-vacuity of mes_price_system: hypotheses hold, the table is the expected one *)
+Example C07_price_nonvacuous :
+  let P := [mkV [1; 1; 0] 1%nat; mkV [1; 0; 1] 1%nat; mkV [0; 1; 1] 1%nat] in
+  let x := mkIn [2; 3; 3] 6 P (key_of_list [0; 2; 1]) [2; 0; 1]%nat false [] in
+  match mes_resolute x with
+  | Some o => o_alloc o = [0; 2]%nat /\ out_table x o = [[1; 0; 0]; [1; 0; 1]; [0; 0; 2]]
+              /\ approvals x = [[0; 1]; [0; 2]; [1; 2]]%nat
+              /\ Priceability.validate_ps (mi_inst x) (approvals x) (o_alloc o) (share x) (out_table x o) false false = true
+  | None => False
+  end.
+Proof. vm_compute. repeat split; reflexivity. Qed.
+
+(* non-vacuity with a multiplicity: class 1 has two copies, each paying the class's per-copy share *)
+Example C07_price_multi_nonvacuous :
+  let P := [mkV [1; 1; 0] 1%nat; mkV [1; 0; 1] 2%nat; mkV [0; 1; 1] 1%nat] in
+  let x := mkIn [2; 3; 3] 6 P (key_of_list [0; 2; 1]) [2; 0; 1]%nat false [] in
+  match mes_resolute x with
+  | Some o => map (map Qred) (exp_table x o) = [[2 # 3; 0; 0]; [2 # 3; 0; 5 # 6]; [2 # 3; 0; 5 # 6]; [0; 0; 4 # 3]]
+              /\ appr_of 3 (expand P) = [[0; 1]; [0; 2]; [0; 2]; [1; 2]]%nat
+              /\ Priceability.validate_ps (mi_inst x) (appr_of 3 (expand P)) (o_alloc o) (share x) (exp_table x o) false false = true
   | None => False
   end.
 Proof. vm_compute. repeat split; reflexivity. Qed.
